@@ -486,7 +486,7 @@ func getAuthPeer(a *seg.ASEntry, i int) []byte {
 	}
 
 	auth := make([]byte, 16)
-	copy(auth[0:6], a.HopEntry.HopField.MAC[:])
+	copy(auth[0:6], a.PeerEntries[i].HopField.MAC[:])
 	copy(auth[6:16], a.UnsignedExtensions.EpicDetached.AuthPeerEntries[i])
 	return auth
 }
